@@ -7,8 +7,10 @@ from typing import Optional
 from ..core import AnalysisError, FuncInfo, Report, call_name, dotted, unparse
 from ..ctx import Ctx
 from ..dataflow import Defs, find_calls
-from .util import (actual, calls_in, enclosing, forwards, in_body, kw,
-                   truthiness_of)
+from .util import (actual, arm_where, calls_in, canon_test, cguards,
+                   const_index,
+                   effective, enclosing, forwards, guards_of, in_body, is_param, kw,
+                   loopvar_over, strip_not, truthiness_of)
 
 EXPLANATION = (
     "Structural rules over tel2puml/otel_to_pv/sequence_otel.py (ast, "
@@ -60,7 +62,7 @@ def _aggregates_all_members(defs: Defs, e: ast.AST, attr: str,
     e = defs.resolve(e)
     if not _is_max_call(e) or len(e.args) != 1:
         return None
-    g = e.args[0]
+    g = defs.resolve(e.args[0])
     if isinstance(g, (ast.GeneratorExp, ast.ListComp, ast.SetComp)) \
             and len(g.generators) == 1 and not g.generators[0].ifs:
         gen = g.generators[0]
@@ -486,7 +488,8 @@ def r83(rep: Report, ctx: Ctx) -> None:
         ev_v = loop.target.elts[1].id   # type: ignore[attr-defined]
     else:
         key_v, ev_v = None, loop.target.id  # type: ignore[attr-defined]
-    call = y.value
+    call = ctx.reach(fi).resolve(y.value, at=y) if y.value is not None \
+        else None
     if not (isinstance(call, ast.Call) and call_name(call) in ("PVEvent",
                                                               "dict")):
         if isinstance(call, ast.Dict):
@@ -497,6 +500,8 @@ def r83(rep: Report, ctx: Ctx) -> None:
                                 f"'{unparse(call)[:60]}' is not a PVEvent")
     else:
         kws = {k.arg: k.value for k in call.keywords if k.arg}
+    reach = ctx.reach(fi)
+    kws = {k: reach.resolve(v, at=y) for k, v in kws.items()}
     for f, src in PV_FIELDS.items():
         v = kws.get(f)
         ok = v is not None and isinstance(v, ast.Attribute) and v.attr == src \
@@ -511,11 +516,14 @@ def r83(rep: Report, ctx: Ctx) -> None:
            detail=f"eventId = {unparse(v) if v is not None else '<missing>'}")
     v = kws.get("timestamp")
     conv = ctx.func("unix_nano_to_pv_string")
-    ok = (isinstance(v, ast.Call) and call_name(v) == conv.name
-          and len(v.args) == 1 and isinstance(v.args[0], ast.Attribute)
-          and v.args[0].attr == "end_timestamp"
-          and isinstance(v.args[0].value, ast.Name)
-          and v.args[0].value.id == ev_v)
+    v = defs.resolve(v) if v is not None else None
+    targ = actual(v, conv, conv.params()[0]) if isinstance(v, ast.Call) \
+        and call_name(v) == conv.name else None
+    targ = defs.resolve(targ) if targ is not None else None
+    ok = (isinstance(targ, ast.Attribute)
+          and targ.attr == "end_timestamp"
+          and isinstance(targ.value, ast.Name)
+          and targ.value.id == ev_v)
     rep.ob("R8.3", "timestamp <- pv string of span.end_timestamp", ok, fi=fi,
            node=y, detail=f"timestamp = "
            f"{unparse(v) if v is not None else '<missing>'}")
@@ -620,6 +628,22 @@ def r84(rep: Report, ctx: Ctx) -> None:
                  and p.func.attr == "update" and isinstance(
                      p.func.value, ast.Name) and p.func.value.id == res
                  for p in par)
+    if not merged:
+        # result bound to a name first:  r = recurse(..); res.update(r)
+        rreach = ctx.reach(fi)
+        for u in ast.walk(inner):
+            if isinstance(u, ast.Call) and isinstance(u.func, ast.Attribute) \
+                    and u.func.attr == "update" and isinstance(
+                        u.func.value, ast.Name) and u.func.value.id == res \
+                    and u.args and rreach.resolve(u.args[0], at=u) is call:
+                merged = True
+        # or merged by item assignment / dict union
+        for u in ast.walk(inner):
+            if isinstance(u, ast.AugAssign) and isinstance(u.op, ast.BitOr) \
+                    and isinstance(u.target, ast.Name) \
+                    and u.target.id == res and rreach.resolve(
+                        u.value, at=u) is call:
+                merged = True
     rep.ob("R8.4", "descendants' links are merged into the returned map",
            merged and bool(ret) and isinstance(ret[-1].value, ast.Name)
            and ret[-1].value.id == res, fi=fi, node=call,
@@ -692,18 +716,88 @@ def r85(rep: Report, ctx: Ctx) -> None:
            detail="the chaining loop iterates the result of "
                   f"{fi.name}(groups)")
     anc = ctx.func("sequence_otel_event_ancestors")
+    areach = ctx.reach(anc)
+    flag = "async_flag"
     sw = [n for n in ast.walk(anc.node) if isinstance(n, ast.If)
-          and isinstance(n.test, ast.Name) and n.test.id == "async_flag"]
+          and strip_not(n.test)[0].__class__ is ast.Name
+          and strip_not(n.test)[0].id == flag]   # type: ignore[attr-defined]
     ok = False
     if len(sw) == 1:
-        t = {call_name(c) for s in sw[0].body for c in ast.walk(s)
+        on = arm_where(sw[0], ("truth", flag, "1")) or []
+        off = arm_where(sw[0], ("truth", flag, "0")) or []
+        t = {call_name(c) for st in on for c in ast.walk(st)
              if isinstance(c, ast.Call)}
-        f = {call_name(c) for s in sw[0].orelse for c in ast.walk(s)
+        f = {call_name(c) for st in off for c in ast.walk(st)
              if isinstance(c, ast.Call)}
         ok = asy.name in t and fi.name in f and asy.name not in f
     rep.ob("R8.5", "async_flag selects chaining, otherwise plain ordering",
            ok, fi=anc, node=sw[0] if sw else anc.node,
            detail="if async_flag: async sequencing else order by start")
+    # both sequencers work on the prior-information groups of *all* children
+    grp = ctx.func("group_events_using_async_information")
+    for seqr in (asy, fi):
+        for c in calls_in(ctx, anc, seqr):
+            a = actual(c, seqr, seqr.params()[0])
+            src = areach.resolve(a, at=c) if a is not None else None
+            ok = isinstance(src, ast.Call) and call_name(src) == grp.name
+            rep.ob("R8.5", f"{seqr.name} receives the prior-information "
+                   "groups", ok, fi=anc, node=c,
+                   detail=f"groups = {unparse(src)[:90]}"
+                          + ("" if ok else " -- siblings mapped to one group "
+                             "are no longer kept together on this arm"))
+    # the between-groups key is the group's first (earliest) member
+    for srt in outer:
+        key = kw(srt, "key")
+        idx = [const_index(n) for n in ast.walk(key)
+               if isinstance(n, ast.Subscript)] if key is not None else []
+        ok = idx == [0]
+        rep.ob("R8.5", "groups are keyed by their first member", ok, fi=fi,
+               node=srt, detail=f"key {unparse(key)[:60]} indexes {idx}")
+    # the chaining starts a chain with the first group and visits the rest
+    first = [b for b in defs.of(_chain_name(asy)) if b.value is not None]
+    init_kind = "other"
+    if len(first) == 1 and isinstance(first[0].value, ast.List):
+        el = first[0].value.elts
+        if not el:
+            init_kind = "empty"
+        elif len(el) == 1 and const_index(el[0]) == 0:
+            init_kind = "first"
+    loop_kind = "other"
+    chain_loops = [l for l in loops if not enclosing(asy.node, l, (ast.For,))]
+    if len(chain_loops) == 1:
+        it = chain_loops[0].iter
+        if isinstance(it, ast.Subscript) and isinstance(it.slice, ast.Slice):
+            sl = it.slice
+            if sl.upper is None and sl.step is None and isinstance(
+                    sl.lower, ast.Constant) and sl.lower.value == 1:
+                loop_kind = "rest"
+        elif isinstance(it, ast.Name):
+            loop_kind = "all"
+    ok = (init_kind, loop_kind) in (("first", "rest"), ("empty", "all"))
+    rep.ob("R8.5", "every group is placed exactly once (first chain = first "
+           "group and the loop visits the others, or the loop visits all)",
+           ok, fi=asy, node=chain_loops[0] if chain_loops else asy.node,
+           detail=f"chains start as {[unparse(b.value) for b in first][:2]} "
+                  f"({init_kind}); loop over "
+                  f"{unparse(chain_loops[0].iter) if chain_loops else '?'} "
+                  f"({loop_kind})")
+    for ret in [n for n in ast.walk(asy.node) if isinstance(n, ast.Return)]:
+        gs = guards_of(asy.node, ret)
+        if gs:
+            ok = len(gs) == 1 and gs[0][0] == "truth" and gs[0][2] == "0"
+            rep.ob("R8.5", "an early return only when there is no group",
+                   ok, fi=asy, node=ret,
+                   detail=f"'{unparse(ret)}' under "
+                          f"{[' '.join(g) for g in gs]}")
+
+
+def _chain_name(asy: FuncInfo) -> str:
+    """Name of the list of chains: the name the function returns last."""
+    rets = [n for n in asy.node.body if isinstance(n, ast.Return)
+            and isinstance(n.value, ast.Name)]
+    if not rets:
+        raise AnalysisError(f"{asy.qualname}: no returned chain list")
+    return rets[-1].value.id  # type: ignore[union-attr]
 
 
 # --------------------------------------------------------------------------
@@ -711,57 +805,102 @@ def r86(rep: Report, ctx: Ctx) -> None:
     rep.rule("R8.6", "rename rule", 4)
     one = ctx.func("update_event_type_based_on_children")
     many = ctx.func("update_event_types_based_on_children")
+    span_p, job_p, info_p = one.params()[:3]
+    oreach = ctx.reach(one)
     assigns = [n for n in ast.walk(one.node) if isinstance(n, ast.Assign)
                and isinstance(n.targets[0], ast.Attribute)
                and n.targets[0].attr == "event_type"]
-    ok = len(assigns) == 1 and isinstance(assigns[0].value, ast.Attribute) \
-        and assigns[0].value.attr == "mapped_event_type" \
+    val = oreach.resolve(assigns[0].value, at=assigns[0]) if assigns else None
+    ok = len(assigns) == 1 and isinstance(val, ast.Attribute) \
+        and val.attr == "mapped_event_type" \
+        and isinstance(val.value, ast.Name) and val.value.id == info_p \
         and isinstance(assigns[0].targets[0].value, ast.Name) \
-        and assigns[0].targets[0].value.id == one.params()[0]
+        and assigns[0].targets[0].value.id == span_p
     rep.ob("R8.6", "the span's type becomes mapped_event_type", ok, fi=one,
            node=assigns[0] if assigns else one.node,
            detail=unparse(assigns[0]) if assigns else "<missing>")
     if assigns:
-        guards = enclosing(one.node, assigns[0], (ast.If,))
-        g = guards[-1].test if guards else None
-        ok = isinstance(g, ast.Compare) and len(g.ops) == 1 and isinstance(
-            g.ops[0], ast.In) and isinstance(g.left, ast.Attribute) \
-            and g.left.attr == "event_type" and isinstance(
-                g.comparators[0], ast.Attribute) \
-            and g.comparators[0].attr == "child_event_types"
-        rep.ob("R8.6", "guard: a child's type is listed", ok, fi=one,
-               node=guards[-1] if guards else assigns[0],
-               detail=f"guard '{unparse(g)}'")
+        gs = cguards(ctx, one, assigns[0])
+        listed = [g for g in gs if g[0] == "cmp" and g[2] == "In"
+                  and g[3] == f"{info_p}.child_event_types"]
+        child = None
+        if listed:
+            # left side: <child>.event_type with <child> looked up in the job
+            # map by a child id
+            try:
+                lhs = ast.parse(listed[0][1], mode="eval").body
+            except SyntaxError:
+                lhs = None
+            if isinstance(lhs, ast.Attribute) and lhs.attr == "event_type" \
+                    and isinstance(lhs.value, ast.Name):
+                child = lhs.value.id
+        other = [g for g in gs if g not in listed and g != (
+            "cmp", f"{span_p}.child_event_ids", "IsNot", "None")]
+        rep.ob("R8.6", "guard: a child's type is listed",
+               len(listed) == 1 and child is not None and not other, fi=one,
+               node=assigns[0],
+               detail=f"conditions on the rename: "
+                      f"{[' '.join(g) for g in gs]} (exactly: the type of a "
+                      "child is in child_event_types)")
         loops = enclosing(one.node, assigns[0], (ast.For,))
         ok = bool(loops) and isinstance(loops[0].iter, ast.Attribute) \
-            and loops[0].iter.attr == "child_event_ids"
+            and loops[0].iter.attr == "child_event_ids" and isinstance(
+                loops[0].iter.value, ast.Name) \
+            and loops[0].iter.value.id == span_p
+        if ok and child is not None:
+            cid = loops[0].target.id if isinstance(loops[0].target,
+                                                   ast.Name) else None
+            cb = [b for b in ctx.defs(one).of(child) if b.value is not None]
+            ok = len(cb) == 1 and unparse(cb[0].value) == f"{job_p}[{cid}]"
         rep.ob("R8.6", "every child id is examined", ok, fi=one,
                node=loops[0] if loops else one.node,
                detail=f"loop over "
-               f"'{unparse(loops[0].iter) if loops else ''}'")
+               f"'{unparse(loops[0].iter) if loops else ''}', child looked "
+               "up in the trace's span map by that id")
+    # nothing but "no children" may skip the examination
+    for ret in [n for n in ast.walk(one.node) if isinstance(n, ast.Return)]:
+        gs = cguards(ctx, one, ret)
+        ok = gs in ([("cmp", f"{span_p}.child_event_ids", "Is", "None")],
+                    [("truth", f"{span_p}.child_event_ids", "0")])
+        rep.ob("R8.6", "an early return only for a span without children",
+               ok, fi=one, node=ret,
+               detail=f"'{unparse(ret)}' under {[' '.join(g) for g in gs]}")
     cs = calls_in(ctx, many, one)
     ok = False
     if len(cs) == 1:
-        guards = enclosing(many.node, cs[0], (ast.If,))
-        g = guards[-1].test if guards else None
-        a = actual(cs[0], one, "event_type_map_information")
-        ok = isinstance(g, ast.Compare) and isinstance(g.ops[0], ast.In) \
-            and isinstance(g.left, ast.Attribute) \
-            and g.left.attr == "event_type" \
-            and isinstance(a, ast.Subscript) and isinstance(
-                a.slice, ast.Attribute) and a.slice.attr == "event_type"
+        gs = cguards(ctx, many, cs[0])
+        a = actual(cs[0], one, info_p)
+        a = ctx.reach(many).resolve(a, at=cs[0]) if a is not None else None
+        sp = actual(cs[0], one, span_p)
+        map_p = many.params()[1]
+        ok = isinstance(sp, ast.Name) and gs == [
+            ("cmp", f"{sp.id}.event_type", "In", map_p)] \
+            and a is not None \
+            and unparse(a) == f"{map_p}[{sp.id}.event_type]"
+        mdefs = ctx.defs(many)
+        ok = ok and loopvar_over(
+            mdefs, sp, lambda it: isinstance(it, ast.Call) and isinstance(
+                it.func, ast.Attribute) and it.func.attr == "values"
+            and isinstance(it.func.value, ast.Name)
+            and it.func.value.id == many.params()[0])
     rep.ob("R8.6", "applied only to spans whose own type is a key, with "
            "that key's entry", ok, fi=many, node=cs[0] if cs else many.node,
-           detail="if event.event_type in map: update(event, job, "
-                  "map[event.event_type])")
+           detail="for span in job.values(): if span.event_type in map: "
+                  "update(span, job, map[span.event_type])")
     jobs = ctx.func("sequence_otel_jobs")
     cs = calls_in(ctx, jobs, many)
     seq = calls_in(ctx, jobs, ctx.func("sequence_otel_event_job"))
-    ok = len(cs) == 1 and len(seq) == 1 and cs[0].lineno < seq[0].lineno
+    ok = len(cs) == 1 and len(seq) == 1
     if ok:
-        guards = enclosing(jobs.node, cs[0], (ast.If,))
-        ok = len(guards) == 1 and isinstance(guards[0].test, ast.Name) and \
-            not enclosing(jobs.node, seq[0], (ast.If,))
+        cfg = ctx.cfg(jobs)
+        n_ren, n_seq = cfg.container(cs[0]), cfg.container(seq[0])
+        gs = cguards(ctx, jobs, cs[0])
+        tmap = jobs.params()[3]
+        ok = n_ren is not None and n_seq is not None \
+            and n_seq in cfg.reachable(n_ren) \
+            and gs in ([("truth", tmap, "1")],
+                       [("cmp", tmap, "IsNot", "None")]) \
+            and not cguards(ctx, jobs, seq[0])
     rep.ob("R8.6", "rename runs before sequencing whenever a map is given",
            ok, fi=jobs, node=cs[0] if cs else jobs.node,
            detail="update_event_types_based_on_children(job, map) guarded "
@@ -781,8 +920,10 @@ def r87(rep: Report, ctx: Ctx) -> None:
         "async_flag": "async_flag",
         "event_to_async_group_map": "event_to_async_group_map",
         "event_types_map_information": "event_types_map_information"})
+    jdefs = ctx.defs(jobs)
     forwards(rep, ctx, "R8.7", jobs, job, {
-        "event_id_to_event_map": "job",
+        "event_id_to_event_map":
+            lambda e: loopvar_over(jdefs, e, is_param(jobs.params()[0])),
         "async_flag": "async_flag",
         "event_to_async_group_map": "event_to_async_group_map"})
     forwards(rep, ctx, "R8.7", job, anc, {
@@ -797,20 +938,27 @@ def r87(rep: Report, ctx: Ctx) -> None:
     top = ctx.func("otel_to_pv")
     defs = ctx.defs(top)
 
+    def from_stream(it: ast.AST) -> bool:
+        return isinstance(it, ast.Call) and call_name(it) == "stream_data"
+
     def cfg_attr(attr: str, via_get: bool):
         def pred(e: ast.AST) -> bool:
-            e2 = defs.resolve_deep(e)
+            e2 = defs.resolve(e)
             if via_get:
                 if not (isinstance(e2, ast.Call) and isinstance(
                         e2.func, ast.Attribute) and e2.func.attr == "get"):
                     return False
                 key = e2.args[0] if e2.args else None
-                if not (isinstance(key, ast.Name) and key.id == "job_name"):
+                # the key is the workflow name the stream is delivered under
+                if key is None or not loopvar_over(defs, key, from_stream,
+                                                   index=0):
                     return False
-                e2 = e2.func.value
-            return isinstance(e2, ast.Attribute) and e2.attr == attr \
-                and isinstance(e2.value, ast.Attribute) \
-                and e2.value.attr == "sequencer"
+                e2 = defs.resolve(e2.func.value)
+            if not (isinstance(e2, ast.Attribute) and e2.attr == attr):
+                return False
+            base = defs.resolve(e2.value)
+            return isinstance(base, ast.Attribute) \
+                and base.attr == "sequencer"
         return pred
     forwards(rep, ctx, "R8.7", top, streams, {
         "async_flag": cfg_attr("async_flag", False),
@@ -836,6 +984,7 @@ def r88(rep: Report, ctx: Ctx) -> None:
              "mapped joins the group its type maps to, every other child is "
              "a group of its own", 3)
     fi = ctx.func("group_events_using_async_information")
+    reach = ctx.reach(fi)
     ev_p, map_p = fi.params()[0], fi.params()[1]
     loops = [l for l in ast.walk(fi.node) if isinstance(l, ast.For)
              and isinstance(l.iter, ast.Name) and l.iter.id == ev_p]
@@ -843,15 +992,22 @@ def r88(rep: Report, ctx: Ctx) -> None:
         raise AnalysisError(f"{fi.qualname}: loop over the children not "
                             "found")
     loop, v = loops[0], loops[0].target.id
-    ifs = [i for i in loop.body if isinstance(i, ast.If)]
-    ok = len(ifs) == 1 and len(loop.body) == 1 and unparse(ifs[0].test) == \
-        f"{v}.event_type in {map_p}"
+    body = effective(loop.body)
+    ifs = [i for i in body if isinstance(i, ast.If)]
+    mapped = ("cmp", f"{v}.event_type", "In", map_p)
+    ok = len(ifs) == 1 and len(body) == 1 and \
+        arm_where(ifs[0], mapped) is not None
     rep.ob("R8.8", "membership test on the child's own type", ok, fi=fi,
            node=ifs[0] if ifs else loop,
-           detail=f"if {unparse(ifs[0].test) if ifs else '?'}")
-    if not ifs:
+           detail=f"if {unparse(ifs[0].test) if ifs else '?'} (every child "
+                  "is classified by exactly one test of its own type "
+                  "against the map)")
+    if not ifs or not ok:
         return
-    apps = [c for st in ifs[0].body for c in ast.walk(st)
+    in_arm = arm_where(ifs[0], mapped) or []
+    out_arm = arm_where(ifs[0], ("cmp", f"{v}.event_type", "NotIn", map_p)) \
+        or []
+    apps = [c for st in in_arm for c in ast.walk(st)
             if isinstance(c, ast.Call) and call_name(c) in ("append",)]
     ok = False
     if len(apps) == 1:
@@ -859,28 +1015,56 @@ def r88(rep: Report, ctx: Ctx) -> None:
         key = recv.slice if isinstance(recv, ast.Subscript) else None
         if isinstance(recv, ast.Call) and call_name(recv) == "setdefault":
             key = recv.args[0]
+        key = reach.resolve_deep(key, at=apps[0]) if key is not None else None
+        arg = reach.resolve(apps[0].args[0], at=apps[0])
         ok = key is not None and unparse(key) == \
-            f"{map_p}[{v}.event_type]" and unparse(apps[0].args[0]) == v
+            f"{map_p}[{v}.event_type]" and unparse(arg) == v
     rep.ob("R8.8", "mapped child joins the group of its mapped id", ok,
            fi=fi, node=apps[0] if apps else ifs[0],
            detail=unparse(apps[0])[:100] if apps else "<missing>")
-    other = [c for st in ifs[0].orelse for c in ast.walk(st)
+    other = [c for st in out_arm for c in ast.walk(st)
              if isinstance(c, ast.Call) and call_name(c) == "append"]
-    ok = len(other) == 1 and isinstance(other[0].args[0], ast.List) and \
-        [unparse(e) for e in other[0].args[0].elts] == [v]
+    ok = False
+    if len(other) == 1:
+        arg = reach.resolve(other[0].args[0], at=other[0])
+        ok = isinstance(arg, ast.List) and \
+            [unparse(e) for e in arg.elts] == [v]
     rep.ob("R8.8", "unmapped child forms a group of its own", ok, fi=fi,
            node=other[0] if other else ifs[0],
            detail=unparse(other[0])[:80] if other else "<missing>")
+    # nothing but "no children" may cut the grouping short
+    for ret in [n for n in ast.walk(fi.node) if isinstance(n, ast.Return)]:
+        gs = guards_of(fi.node, ret)
+        if not gs:
+            continue
+        ok = gs == [("truth", ev_p, "0")] or gs == [
+            ("cmp", "0", "Eq", f"len({ev_p})")]
+        rep.ob("R8.8", "an early return only for an empty child list", ok,
+               fi=fi, node=ret,
+               detail=f"'{unparse(ret)}' under {[' '.join(g) for g in gs]}"
+                      + ("" if ok else " -- children are dropped from the "
+                         "sequence"))
     # the map handed in is the parent's own entry
     anc = ctx.func("sequence_otel_event_ancestors")
     cs = calls_in(ctx, anc, fi)
     a = actual(cs[0], fi, map_p) if cs else None
     defs = ctx.defs(anc)
-    vals = [b.value for b in defs.of(a.id) if b.value is not None] \
+    ev0, gm = anc.params()[0], "event_to_async_group_map"
+    binds = [b for b in defs.of(a.id) if b.value is not None] \
         if isinstance(a, ast.Name) else []
-    ok = any(unparse(x) == "event_to_async_group_map[event.event_type]"
-             for x in vals) and any(isinstance(x, ast.Dict) and not x.keys
-                                    for x in vals) and len(vals) == 2
+    lookups = [b for b in binds
+               if unparse(b.value) == f"{gm}[{ev0}.event_type]"]
+    empties = [b for b in binds if isinstance(b.value, ast.Dict)
+               and not b.value.keys]
+    ok = len(binds) == 2 and len(lookups) == 1 and len(empties) == 1
+    if ok:
+        has = ("cmp", f"{ev0}.event_type", "In", gm)
+        hasnt = ("cmp", f"{ev0}.event_type", "NotIn", gm)
+        g1 = guards_of(anc.node, lookups[0].stmt)
+        g2 = guards_of(anc.node, empties[0].stmt)
+        ok = g1 == [has] and g2 in ([hasnt], [])
     rep.ob("R8.8", "groups come from the parent type's entry (else none)",
            ok, fi=anc, node=cs[0] if cs else anc.node,
-           detail=f"{unparse(a)} <- {[unparse(x) for x in vals]}")
+           detail=f"{unparse(a)} <- {[unparse(b.value) for b in binds]}; the "
+                  "entry is looked up exactly when the parent's type is a "
+                  "key of the map")
